@@ -563,6 +563,21 @@ def mk_crypto(spec):
 #             [payload..], [encrypted payload..], iv|None, is_authenticated]
 # payload  = [type number, critical, *fields]     (fields per class, see canon_payload)
 
+def rle(items):
+    """Run-length encoding [[item, count]..] (a 4-byte DELETE payload can announce 65535 empty SPIs)."""
+    out = []
+    for x in items:
+        if out and out[-1][0] == x:
+            out[-1][1] += 1
+        else:
+            out.append([x, 1])
+    return out
+
+
+def unrle(pairs):
+    return [x for x, n in pairs for _ in range(n)]
+
+
 def canon_payload(p):
     import message as M
     head = [int(p.type), bool(p.critical)]
@@ -583,7 +598,7 @@ def canon_payload(p):
     if isinstance(p, M.PayloadNOTIFY):
         return head + [int(p.protocol_id), int(p.notification_type), bytes(p.spi), bytes(p.notification_data)]
     if isinstance(p, M.PayloadDELETE):
-        return head + [int(p.protocol_id), [bytes(s) for s in p.spis]]
+        return head + [int(p.protocol_id), rle([bytes(s) for s in p.spis])]
     if isinstance(p, M.PayloadTS):
         return head + [[[int(t.ts_type), int(t.ip_proto), int(t.start_port), int(t.end_port),
                          t.start_addr.packed, t.end_addr.packed] for t in p.traffic_selectors]]
@@ -620,7 +635,7 @@ def build_payload(t):
     if ty == 41:
         return M.PayloadNOTIFY(f[0], f[1], f[2], f[3], critical=crit)
     if ty == 42:
-        return M.PayloadDELETE(f[0], list(f[1]), critical=crit)
+        return M.PayloadDELETE(f[0], unrle(f[1]), critical=crit)
     if ty in (44, 45):
         sels = [M.TrafficSelector(s[0], s[1], s[2], s[3], ip_address(s[4]), ip_address(s[5])) for s in f[0]]
         return (M.PayloadTSi if ty == 44 else M.PayloadTSr)(sels, critical=crit)
@@ -721,7 +736,8 @@ def rfc_body(p, marks, off):
     if ty == 41:
         return u(f[0], 1) + u(len(f[2]), 1) + u(f[1], 2) + f[2] + f[3]
     if ty == 42:
-        return u(f[0], 1) + u(len(f[1][0]) if f[1] else 0, 1) + u(len(f[1]), 2) + b''.join(f[1])
+        spis = unrle(f[1])
+        return u(f[0], 1) + u(len(spis[0]) if spis else 0, 1) + u(len(spis), 2) + b''.join(spis)
     if ty in (44, 45):
         out = u(len(f[0]), 1) + b'\x00\x00\x00'
         for s in f[0]:
@@ -844,7 +860,7 @@ def gen_payload(rng, kind=None):
         spis = [rnd_bytes(rng, size) for _ in range(rng.choice((0, 1, 2, 5)))]
         if rng.random() < 0.1 and spis:
             spis.append(rnd_bytes(rng, rng.randrange(0, 10)))     # SPIs of unequal sizes
-        return [42, crit, rng.choice((1, 2, 3)), spis]
+        return [42, crit, rng.choice((1, 2, 3)), rle(spis)]
     if kind in (44, 45):
         return [kind, crit, [gen_tsel(rng) for _ in range(rng.choice((0, 1, 2, 3)))]]
     if kind == 46:
@@ -930,7 +946,7 @@ def authentic_messages(rng):
                                      sa_child, tsi, tsr, [41, False, 0, 16391, b'', b'']], None, False]
     child = hdr(36, True, 2) + [[], [[41, False, 3, 16393, rnd_bytes(rng, 4), b''], sa_child, nonce, ke, tsi, tsr],
                                 None, False]
-    info = hdr(37, False, 3) + [[], [[42, False, 3, [rnd_bytes(rng, 4), rnd_bytes(rng, 4)]],
+    info = hdr(37, False, 3) + [[], [[42, False, 3, rle([rnd_bytes(rng, 4), rnd_bytes(rng, 4)])],
                                      [41, False, 0, 14, b'', b'']], None, False]
     return [init, auth, child, info]
 
